@@ -550,7 +550,7 @@ func stripCounts(ans string) string {
 type crunCase struct {
 	Kind  string            `json:"kind"` // "crun"
 	Start map[string]string `json:"start"`
-	Subs  []string          `json:"subs"` // "pull" | "id:<id>"
+	Subs  []string          `json:"subs"` // "pull" | "id:<id>"; a "!" after the kind = WithUpdatesOnly
 	Hold  bool              `json:"hold"` // plus a backpressured Pull subscriber that receives at once and keeps the event objects
 	Moves []string          `json:"moves"`
 }
@@ -719,13 +719,16 @@ func (c crunCase) runCode(model string, b *pipeBudget) crunObs {
 	obs.Held = make([][]heldEvent, len(c.Subs))
 	obs.Drains = make([][]string, len(c.Subs))
 	for k, kind := range c.Subs {
-		s := &crunSub{kind: kind}
-		probe := resource.WithInclude(func(id string, item proto.Message) bool { s.seen.Add(1); return true })
-		if strings.HasPrefix(kind, "id:") {
-			s.kind, s.id = "id", strings.TrimPrefix(kind, "id:")
-			s.values = col.PullID(root, s.id, probe)
+		s := &crunSub{kind: "pull"}
+		ropts := []resource.ReadOption{resource.WithInclude(func(id string, item proto.Message) bool { s.seen.Add(1); return true })}
+		if strings.Contains(kind, "!") {
+			ropts = append(ropts, resource.WithUpdatesOnly(true)) // no seeds; the view the stream starts from is the start view
+		}
+		if strings.HasPrefix(kind, "id") {
+			s.kind, s.id = "id", kind[strings.Index(kind, ":")+1:]
+			s.values = col.PullID(root, s.id, ropts...)
 		} else {
-			s.events = col.Pull(root, probe)
+			s.events = col.Pull(root, ropts...)
 		}
 		base[k] = s.seen.Load() // the seed list was filtered while subscribing; seeds are not looked at again
 		subs[k] = s
@@ -949,12 +952,16 @@ func (c crunCase) monitor(m *lib.Monitor, obs crunObs) {
 				got = append(got, o)
 			}
 		}
-		if !strings.HasPrefix(kind, "id:") {
+		updatesOnly := strings.Contains(kind, "!")
+		if !strings.HasPrefix(kind, "id") {
 			if closed {
 				m.Violate("C09/Collection/multi/stream-closed", "a Pull stream ended although its context is live", c, "open", fmt.Sprintf("subscriber %d closed", k))
 				continue
 			}
 			view := map[string]string{}
+			if updatesOnly {
+				view = copyView(c.Start)
+			}
 			for _, ev := range got {
 				if !foldInto(view, ev) {
 					m.Violate("C09/Collection/multi/old-value-chain", "with several subscribers on one collection, a delivered change is not well formed at the receiving subscriber's own view (old values must chain per id)", c, "well-formed at "+showView(view), fmt.Sprintf("subscriber %d: %s (stream %s)", k, ev, strings.Join(got, ";")))
@@ -964,7 +971,7 @@ func (c crunCase) monitor(m *lib.Monitor, obs crunObs) {
 			if a, w := showView(view), showView(final); a != w {
 				m.Violate("C09/Collection/multi/fold-differs", "after draining, a subscriber's received changes fold to a different view than the collection holds", c, w, fmt.Sprintf("subscriber %d: %s", k, a))
 			}
-			if len(got) < len(c.Start)+len(obs.Events) {
+			if len(got) < len(c.Start)+len(obs.Events) && !updatesOnly || len(got) < len(obs.Events) {
 				dropped = true
 			}
 			for _, h := range obs.Held[k] {
@@ -976,9 +983,9 @@ func (c crunCase) monitor(m *lib.Monitor, obs crunObs) {
 			continue
 		}
 		// PullID: the values of one id, in order, until the item is removed
-		id := strings.TrimPrefix(kind, "id:")
+		id := kind[strings.Index(kind, ":")+1:]
 		var written []string
-		if v, ok := c.Start[id]; ok {
+		if v, ok := c.Start[id]; ok && !updatesOnly {
 			written = append(written, v)
 		}
 		for _, ev := range obs.Events {
@@ -1001,7 +1008,7 @@ func (c crunCase) monitor(m *lib.Monitor, obs crunObs) {
 		switch {
 		case closed && !removedOnce[id]:
 			m.Violate("C09/Collection/PullID/closed-without-remove", "a PullID stream ended although the item was never removed and the context is live", c, "open", fmt.Sprintf("subscriber %d closed", k))
-		case !closed && present && (len(got) == 0 || got[len(got)-1] != cur):
+		case !closed && present && (len(got) == 0 || got[len(got)-1] != cur) && !(updatesOnly && len(got) == 0 && cur == c.Start[id]):
 			m.Violate("C09/Collection/PullID/latest-not-received", "after draining, a live PullID subscriber's last value is not the item's most recent value", c, cur, fmt.Sprintf("subscriber %d: %s", k, strings.Join(got, " ")))
 		case !closed && !present && removedOnce[id] && len(got) > 0:
 			m.Violate("C09/Collection/PullID/not-closed", "the item is gone but the drained PullID stream neither ended nor can show it", c, "closed", fmt.Sprintf("subscriber %d: %s", k, strings.Join(got, " ")))
@@ -1047,6 +1054,7 @@ func genCrunCases(f lib.Flags) []crunCase {
 		{[]string{"id:a", "id:b"}, false, map[string]string{"b": "b0"}, f.N(4, 5)},
 		{[]string{"pull", "id:a"}, true, map[string]string{}, f.N(4, 5)},
 		{[]string{"pull"}, true, map[string]string{"a": "a0"}, f.N(5, 6)},
+		{[]string{"pull!", "id!:a"}, false, map[string]string{"a": "a0"}, f.N(4, 5)},
 	}
 	for _, g := range cfgs {
 		var rec func(n int, view map[string]string, t int, prefix []string)
@@ -1089,10 +1097,14 @@ func genCrunCase(r *rand.Rand) crunCase {
 		}
 	}
 	for k, n := 0, 1+r.Intn(3); k < n; k++ {
+		uo := ""
+		if r.Intn(4) == 0 {
+			uo = "!" // WithUpdatesOnly
+		}
 		if r.Intn(3) == 0 {
-			c.Subs = append(c.Subs, "id:"+ids[r.Intn(len(ids))])
+			c.Subs = append(c.Subs, "id"+uo+":"+ids[r.Intn(len(ids))])
 		} else {
-			c.Subs = append(c.Subs, "pull")
+			c.Subs = append(c.Subs, "pull"+uo)
 		}
 	}
 	view := copyView(c.Start)
@@ -1121,7 +1133,7 @@ func genCrunCase(r *rand.Rand) crunCase {
 
 func runCollectionPipelines(f lib.Flags, res *lib.Result, drv *lib.Driver) {
 	tie := res.Tie("collection-subscribers", "K1",
-		"the REAL resource.Collection with SEVERAL lossy subscribers on one bus (each Collection.Pull or Collection.PullID; optionally next to a backpressured one that keeps receiving), end to end (Update/Delete -> bus -> mergeCollectionExcess -> Pull's forwarder [-> PullID's goroutine] -> consumer k), one move at a time (u:/x: = a write, d<k> = consumer k receives once; after every move the harness waits until every forwarder has caught up) vs the model's sysStep: one machine per subscriber, independent of each other, scheduled greedily: ALL move sequences up to length L (4..5 quick, 5..7 thorough, by configuration) over 2 ids x 1..2 subscribers' receives (seeds of the start view are received as part of the moves, so writes also arrive and merge during the seed phase) from several start views and subscriber mixes, plus random longer ones (<= 3 subscribers, 3 ids); compared: what every receive yields (all fields but the wall-clock time) and what a final drain of every subscriber yields; non-trivial = at least two writes; distinct = (start, subscribers, moves)")
+		"the REAL resource.Collection with SEVERAL lossy subscribers on one bus (each Collection.Pull or Collection.PullID, seeded or WithUpdatesOnly; optionally next to a backpressured one that keeps receiving), end to end (Update/Delete -> bus -> mergeCollectionExcess -> Pull's forwarder [-> PullID's goroutine] -> consumer k), one move at a time (u:/x: = a write, d<k> = consumer k receives once; after every move the harness waits until every forwarder has caught up) vs the model's sysStep: one machine per subscriber, independent of each other, scheduled greedily: ALL move sequences up to length L (4..5 quick, 5..7 thorough, by configuration) over 2 ids x 1..2 subscribers' receives (seeds of the start view are received as part of the moves, so writes also arrive and merge during the seed phase) from several start views and subscriber mixes, plus random longer ones (<= 3 subscribers, 3 ids); compared: what every receive yields (all fields but the wall-clock time) and what a final drain of every subscriber yields; non-trivial = at least two writes; distinct = (start, subscribers, moves)")
 	mon := res.Monitor("subscribers-independent", "on the same runs, independent of the model: no write blocks, fails or waits (bound 2s) whichever lossy subscribers stall; every Pull subscriber's own stream chains per id at its own view and folds, after a drain, to the collection's state (= List); no event object a subscriber received changes afterwards (re-rendered at the end); a PullID subscriber receives a subsequence of its item's values, ends only if the item was removed, and otherwise ends on the item's most recent value; a backpressured subscriber that keeps receiving gets every change in order; distinct = the case; non-trivial = something was merged away or skipped")
 	cases := genCrunCases(f)
 	lines := make([]string, len(cases))
